@@ -14,7 +14,7 @@ def run(facts, tier):
         ("cache invalidation", Q.cache_invalidation, 9, "every public mutator invalidates the cached sorted view on every data-modifying path"),
         ("compaction triggers", Q.compaction_triggers, 2, "compaction triggers include the capacity boundary"),
         ("levels grow only", lambda fa: [o for o in Q.level_growth(fa) if not o["key"].startswith("density_sketch")], 4, "the vector of levels / compactors only grows in mutators; no resize/erase/clear can drop levels with their items"),
-        ("couplings", lambda fa: cowrite.obligations(fa, ['kll_sketch', 'req_sketch', 'quantiles_sketch']), 10, "fields that every mutator updates together (counters, extremes, cached values) are still updated together"),
+        ("couplings", lambda fa: cowrite.obligations(fa, ['kll_sketch', 'req_sketch', 'req_compactor', 'quantiles_sketch']), 10, "fields that every mutator updates together (counters, extremes, cached values) are still updated together"),
         ("tautologies", lambda fa: generic_lints.tautologies(fa, ('kll/', 'req/', 'quantiles/', 'common/')), 2, "no comparison / assignment / min-max with two identical operands, no if-else with identical arms"),
         ("duplicate operands", lambda fa: generic_lints.duplicate_conjuncts(fa, ('kll/', 'req/', 'quantiles/', 'common/')), 2, "no logical chain tests the same operand twice (copy-paste of the wrong peer)"),
         ("req region", coin_rules.req_region, 2, "REQ compaction range touches the end of the live region that compact() moves, so shrinking num_items_ removes exactly the compacted items"),
